@@ -1,4 +1,4 @@
-\* deep (thorough): histories of 6 successive calls
+\* deep (thorough): histories of 5 successive calls
 CONSTANTS
   Designs <- DesignsDeep
   Growths <- G2x
@@ -8,7 +8,7 @@ CONSTANTS
   FromInput <- FromBoth
   ExplicitTargets = FALSE
   Refusals = FALSE
-  MaxLevel = 7
+  MaxLevel = 6
 INIT Init
 NEXT Next
 CONSTRAINT Bound
